@@ -2940,14 +2940,14 @@ template< size_t L> void FixedString< L>::swap( FixedString& other) noexcept
    {
       if (other.mLength > 0)
       {
-         std::memcpy( mString, other.mString, other.mLength);
+         std::memcpy( mString, other.mString, other.mLength + 1);
          mLength = other.mLength;
          other.mString[ 0] = '\0';
          other.mLength = 0;
       } // end if
    } else if (other.mLength == 0)
    {
-      std::memcpy( other.mString, mString, mLength);
+      std::memcpy( other.mString, mString, mLength + 1);
       other.mLength = mLength;
       mString[ 0] = '\0';
       mLength = 0;
